@@ -136,8 +136,11 @@ class Facts:
                     continue
             for it in imp['items']:
                 if it['name'] == name and it['is_fn'] and it['def'] in self.fns:
-                    c.append(self.fns[it['def']])
-        return c[0] if len(c) == 1 else None
+                    c.append((imp, self.fns[it['def']]))
+        if len(c) > 1 and trait_args is None and self_adt is not None:
+            # several impls of one trait for the type (PartialEq<Other>, Add<Scalar>, ...): the homogeneous one (Rhs = Self)
+            c = [(imp, f) for imp, f in c if imp.get('trait_args') and all(t.get('adt') == self_adt for t in imp['trait_args'])]
+        return c[0][1] if len(c) == 1 else None
 
     def root_instance(self, def_id):
         return self.inst_roots[def_id]
